@@ -288,6 +288,37 @@ def job_xproc(job):
     import tempfile
     m, data = _xproc_build()
     issues = []
+    # the manager's DEFAULT container (Manager.ref() without data), used attribute-style: copy and original stay in step
+    import xdeps
+    for style in ("attr", "item"):
+        m0 = xdeps.Manager()
+        v = m0.ref(label="v")
+        if style == "attr":
+            v.a = 1
+            v.b = v.a * 2
+            v.c = v.a + v.b
+        else:
+            v["a"] = 1
+            v["b"] = v["a"] * 2
+            v["c"] = v["a"] + v["b"]
+        try:
+            mc = pickle.loads(pickle.dumps(m0))
+            w = mc.containers["v"]
+            for val in (10, -4):
+                if style == "attr":
+                    w.a = val
+                    v.a = val
+                else:
+                    w["a"] = val
+                    v["a"] = val
+                got, want = dict(w._owner), dict(v._owner)
+                if got != want or want != {"a": val, "b": 2 * val, "c": 3 * val}:
+                    raise AssertionError(f"after a = {val} the copy's container holds {got!r}, the original's {want!r}")
+        except Exception as e:  # noqa
+            issues.append({"kind": "violation", "property": "C12", "finding": None, "config": common.config_info(job),
+                           "what": f"manager over its default container ({style}-style access), pickled and restored: {type(e).__name__}: {e}",
+                           "program": ["m = Manager(); v = m.ref(label='v'); a = 1; b = a*2; c = a+b", "copy = pickle.loads(pickle.dumps(m))",
+                                       "a = 10 on both"], "ops": [], "case": {"xproc": "default-container"}})
     d = tempfile.mkdtemp(prefix="c12x-", dir=os.environ.get("XV_SCRATCH_DIR", "/var/tmp"))
     fn = os.path.join(d, "manager.pkl")
     n = 0
